@@ -16,7 +16,7 @@ def run(tier, seed):
             workers=workers, xmx="12g", timeout=5400)
     tlc_must_hold(r, "Decoders")
     vlib.require_coverage(r, ["Mutate", "Decode"], "Decoders")
-    c.add_tlc(r, f"adversary plans: 11 entry points x strict/relaxed x 31 mutation kinds x {sites} sites x 3 variants; capture/re-decode "
+    c.add_tlc(r, f"adversary plans: 11 entry points x strict/relaxed x 32 mutation kinds x {sites} sites x 3 variants; capture/re-decode "
                  "table (CapImpliesRed); TypeOk; every run plan terminates (liveness under weak fairness of Decode)")
     cases = r.replay
     write_ndjson(os.path.join(wd, "cases.ndjson"), cases)
